@@ -1,1 +1,1 @@
-import Asn1
+import Props.C13
